@@ -32,13 +32,14 @@ impl<U: TimeUnitTrait> DateTime<U> {
             unsafe { std::mem::transmute::<DateTime<U>, DateTime<T>>(self) }
         } else {
             use TimeUnit::*;
+            // a coarser unit truncates toward the past (floor), also before 1970, as chrono does
             match (U::unit(), T::unit()) {
-                (Nanosecond, Microsecond) => DateTime::new(self.0 / NANOS_PER_MICRO),
-                (Nanosecond, Millisecond) => DateTime::new(self.0 / NANOS_PER_MILLI),
-                (Nanosecond, Second) => DateTime::new(self.0 / NANOS_PER_SEC),
-                (Microsecond, Millisecond) => DateTime::new(self.0 / MICROS_PER_MILLI),
-                (Microsecond, Second) => DateTime::new(self.0 / MICROS_PER_SEC),
-                (Millisecond, Second) => DateTime::new(self.0 / MILLIS_PER_SEC),
+                (Nanosecond, Microsecond) => DateTime::new(self.0.div_euclid(NANOS_PER_MICRO)),
+                (Nanosecond, Millisecond) => DateTime::new(self.0.div_euclid(NANOS_PER_MILLI)),
+                (Nanosecond, Second) => DateTime::new(self.0.div_euclid(NANOS_PER_SEC)),
+                (Microsecond, Millisecond) => DateTime::new(self.0.div_euclid(MICROS_PER_MILLI)),
+                (Microsecond, Second) => DateTime::new(self.0.div_euclid(MICROS_PER_SEC)),
+                (Millisecond, Second) => DateTime::new(self.0.div_euclid(MILLIS_PER_SEC)),
                 (Microsecond, Nanosecond) => DateTime::new(self.0 * NANOS_PER_MICRO),
                 (Millisecond, Nanosecond) => DateTime::new(self.0 * NANOS_PER_MILLI),
                 (Second, Nanosecond) => DateTime::new(self.0 * NANOS_PER_SEC),
